@@ -175,8 +175,9 @@ def sevenz_variants():
 
 
 def enc_xml(algos):
-    items = "".join(f'<enc:EncryptedData><enc:EncryptionMethod Algorithm="{a}"/><enc:CipherData><enc:CipherReference URI="OEBPS/f{i}"/>'
-                    f'</enc:CipherData></enc:EncryptedData>' for i, a in enumerate(algos))
+    """algos: list of algorithm URIs; None = an EncryptedData entry without any EncryptionMethod child"""
+    items = "".join('<enc:EncryptedData>' + (f'<enc:EncryptionMethod Algorithm="{a}"/>' if a is not None else '') +
+                    f'<enc:CipherData><enc:CipherReference URI="OEBPS/f{i}"/></enc:CipherData></enc:EncryptedData>' for i, a in enumerate(algos))
     return ('<?xml version="1.0"?><encryption xmlns="urn:oasis:names:tc:opendocument:xmlns:container" '
             'xmlns:enc="http://www.w3.org/2001/04/xmlenc#">' + items + "</encryption>").encode()
 
@@ -359,6 +360,8 @@ def sweep():
     for label, extra, want in (("plain", [], "ok"), ("rights.xml", [("META-INF/rights.xml", b"<rights/>")], "encrypted"),
                                ("aes EncryptedData", [("META-INF/encryption.xml", enc_xml(["http://www.w3.org/2001/04/xmlenc#aes128-cbc"]))], "encrypted"),
                                ("obfuscation + aes", [("META-INF/encryption.xml", enc_xml(["http://www.idpf.org/2008/embedding", "http://www.w3.org/2001/04/xmlenc#aes256-cbc"]))], "encrypted"),
+                               ("EncryptedData without EncryptionMethod", [("META-INF/encryption.xml", enc_xml([None]))], "encrypted"),
+                               ("obfuscated font + EncryptedData without EncryptionMethod", [("META-INF/encryption.xml", enc_xml(["http://www.idpf.org/2008/embedding", None]))], "encrypted"),
                                ("encryption.xml without entries", [("META-INF/encryption.xml", enc_xml([]))], "ok")):
         res = run(read_epub, rebuild_zip(ep, extra=extra), "a.epub")
         if res[0] != want or (want == "encrypted" and res[1] != 0):
